@@ -262,6 +262,19 @@ class _mark_ignore_name(ast.NodeTransformer):
         return new_node
 
 
+def _named_expr_targets(body: ast.AST) -> List[str]:
+    "The names a lambda body binds with `:=` (comprehensions leak theirs, nested lambdas do not)"
+    names, todo = [], [body]
+    while len(todo) > 0:
+        n = todo.pop()
+        if isinstance(n, ast.Lambda):
+            continue
+        if isinstance(n, ast.NamedExpr) and isinstance(n.target, ast.Name):
+            names.append(n.target.id)
+        todo.extend(ast.iter_child_nodes(n))
+    return names
+
+
 class _rewrite_captured_vars(ast.NodeTransformer):
     def __init__(self, cv: inspect.ClosureVars):
         # As in python, an enclosing function's variable hides a global of the same name.
@@ -352,10 +365,17 @@ class _rewrite_captured_vars(ast.NodeTransformer):
         return node
 
     def visit_Lambda(self, node: ast.Lambda) -> Any:
-        self._ignore_stack.append([a.arg for a in node.args.args])
-        v = super().generic_visit(node)
+        a = node.args
+        # Default values are evaluated where the lambda is defined, not in its own scope.
+        a.defaults = [self.visit(d) for d in a.defaults]
+        a.kw_defaults = [self.visit(d) if d is not None else None for d in a.kw_defaults]
+        # Every kind of parameter is local to the lambda, and so is the target of a `:=`.
+        params = a.posonlyargs + a.args + a.kwonlyargs
+        params += [p for p in (a.vararg, a.kwarg) if p is not None]
+        self._ignore_stack.append([p.arg for p in params] + _named_expr_targets(node.body))
+        node.body = self.visit(node.body)
         self._ignore_stack.pop()
-        return v
+        return node
 
     def _visit_comprehension(self, node: Any) -> Any:
         "The targets of a comprehension are local names, like the arguments of a lambda."
